@@ -183,6 +183,14 @@ def gammas(run):
     for place in PLACES[1:]:
         for nrow in ((4, 6) if quick else (3, 4, 6, 8)):
             out.append(({"strategy": "plain", "nrow": nrow, "header": "explicit", "footnote": "table", "source": "table", "place": list(place)}, 4 if quick else 5))
+    # column headers shown on the first page only (pageby_header=False): page 1 must still respect the budget
+    for hm in ("explicit", "two"):
+        for strat, extra in (("plain", {}), ("page_by", {"L": 1, "heights": [1, 2]})):
+            for nrow in ((5, 8) if quick else (4, 5, 6, 8, 12)):
+                out.append(({"strategy": strat, "nrow": nrow, "header": hm, "footnote": "table", "pageby_header": False, **extra}, 4 if quick else 5))
+    # the same (long) text in a wide and in a narrow column of one row: the narrow copy decides the row height
+    for nrow in ((6, 10) if quick else (5, 6, 8, 10, 14)):
+        out.append(({"strategy": "plain", "nrow": nrow, "header": "explicit", "dup_narrow": True, "heights": [1, 2]}, 4 if quick else 5))
     # body font / size (heights realised at the cell's own font and size)
     fs = [(1, 6), (1, 12), (1, 18), (4, 9), (9, 9), (9, 12), (4, 24)] if not quick else [(1, 12), (9, 9), (4, 18), (1, 6)]
     for font, size in fs:
